@@ -451,7 +451,18 @@ def parse_function(mod, lines):
     f = Function(name, ret, plist2, post)
     f.text = lines
     cur = None
+    # join multi-line switch instructions
+    joined = []; pend = None
     for ln in lines[1:]:
+        if pend is not None:
+            pend += ' ' + ln.strip()
+            if ln.strip() == ']':
+                joined.append(pend); pend = None
+            continue
+        if ln.strip().startswith('switch ') and ln.rstrip().endswith('['):
+            pend = ln.rstrip(); continue
+        joined.append(ln)
+    for ln in joined:
         s = ln.strip()
         if not s or s[0] == ';':
             continue
